@@ -279,6 +279,28 @@ Section LinkProofs.
     apply (link_loop_preserves P ss HP _ _ _ _ H E).
   Qed.
 
+  (* ---- every station is given a pose exactly once *)
+  Lemma NoDup_app_disjoint {X} (a b : list X) :
+    NoDup a -> NoDup b -> (forall x, In x a -> ~ In x b) -> NoDup (a ++ b).
+  Proof.
+    induction a as [|x a IH]; intros Ha Hb Hd; [exact Hb|]. inversion Ha; subst. cbn [app]. constructor.
+    - rewrite in_app_iff. intros [H|H]; [contradiction | apply (Hd x (or_introl eq_refl) H)].
+    - apply IH; [assumption | exact Hb | intros y Hy; apply Hd; right; exact Hy].
+  Qed.
+
+  Lemma round_nodup ss bp : NoDup (keys bp) -> NoDup (keys (round ss bp)).
+  Proof.
+    intros H. rewrite keys_round. apply NoDup_app_disjoint; [exact H | apply first_occ_nodup|].
+    intros x Hx Hc. rewrite first_occ_in in Hc. apply in_keys_contribs in Hc as (_ & _ & _ & _ & Hn). contradiction.
+  Qed.
+
+  Lemma estimate_remaining_nodup ss bp0 bp :
+    NoDup (keys bp0) -> estimate_remaining ss bp0 = LOk bp -> NoDup (keys bp).
+  Proof.
+    intros H0 E.
+    apply (estimate_remaining_preserves (fun q : list (Z * G) => NoDup (keys q)) ss (round_nodup ss) bp0 bp H0 E).
+  Qed.
+
   (* ------------------------------------------------------------------ exact poses over a group *)
   Section Exact.
     Variable e : G.
